@@ -1133,6 +1133,11 @@ func parseLinkTitle(r *inlineByteReader) linkTitle {
 			if !r.next() {
 				return linkTitle{span: NullSpan(), text: NullSpan()}
 			}
+		case '(':
+			if firstChar == '(' {
+				// A parenthesized title can only contain parentheses that are escaped.
+				return linkTitle{span: NullSpan(), text: NullSpan()}
+			}
 		case terminator:
 			r.next()
 			return linkTitle{
